@@ -468,7 +468,8 @@ func genReply(t *rapid.T, h *helper) breply {
 		kind = "iq"
 	}
 	rk := rapid.SampledFrom(replyKinds).Draw(t, "replykind")
-	from := rapid.SampledFrom([]string{"", remoteAddr, roomMe, peerFull, "@@bad", localAddr}).Draw(t, "replyfrom")
+	from := rapid.SampledFrom([]string{"", remoteAddr, roomMe, peerFull, "@@bad", localAddr, remoteAddr, peerFull,
+		"\uff52\uff4f\uff4d\uff45\uff4f@example.net/orchard", "rene\u0301@example.net", "\u212aelvin@example.net/x", "\uff52@example.net"}).Draw(t, "replyfrom")
 	if kind == "presence" && rapid.IntRange(0, 3).Draw(t, "presfrom") > 0 {
 		from = roomMe
 	}
